@@ -263,6 +263,9 @@ pub struct Checker
     ent_doomed: HashSet<u8>,
     /// doomed in the middle of a collection pass: that pass or the next one may take them
     ent_grace: HashSet<u8>,
+    /// reactors / pool entities a collection pass should have despawned and did not (pending despawn requests)
+    overdue_reactors: Vec<SysUid>,
+    overdue_entities: Vec<u8>,
     /// payload id -> pool entity whose auto-despawn signal the payload owns
     payload_carries: HashMap<u32, u8>,
     /// trace position of the last applied mutation of RA / RB
@@ -324,6 +327,8 @@ impl Checker
             parent: Vec::new(),
             ent_doomed: HashSet::new(),
             ent_grace: HashSet::new(),
+            overdue_reactors: Vec::new(),
+            overdue_entities: Vec::new(),
             payload_carries: HashMap::new(),
             last_res_mut: [None, None],
         }
@@ -387,7 +392,7 @@ impl Checker
     fn dec_arc(&mut self, a: usize)
     {
         self.arcs[a].count -= 1;
-        if self.arcs[a].count == 0 { self.arcs[a].doomed = true; self.arcs[a].grace = self.in_gc; }
+        if self.arcs[a].count == 0 { self.arcs[a].doomed = true; self.arcs[a].grace = false; }
         if self.arcs[a].count < 0 { self.internal(format!("arc {a} count negative")); }
     }
 
@@ -675,6 +680,14 @@ impl Checker
             self.viol("C09", format!("despawn reactions (system, entity) {:?} were due at a poll of this tree but did not run at any boundary of the tree", stuck));
             self.viol("C08", format!("despawn reactions (system, entity) {:?} were due at a poll of this tree but did not run by its end", stuck));
             self.viol("C11", format!("despawn reactions (system, entity) {:?} are still waiting to run when the tree's flush returns", stuck));
+        }
+        let still: Vec<SysUid> = std::mem::take(&mut self.overdue_reactors).into_iter().filter(|s| self.alive(*s)).collect();
+        let still_e: Vec<u8> = std::mem::take(&mut self.overdue_entities).into_iter().filter(|e| self.ent_alive[*e as usize]).collect();
+        if !still.is_empty() || !still_e.is_empty()
+        {
+            let msg = format!("despawn requests for reactors {:?} / entities {:?} were passed over by a collection of this tree and are still pending when its flush returns", still, still_e);
+            self.viol("C11", msg.clone());
+            self.viol("C02", msg);
         }
         if self.tree_had_incident { self.rep.classes.hit("C11:tree_with_incident"); }
         if self.prev_tree_incident { self.rep.classes.hit("C11:tree_after_incident_tree"); }
@@ -1378,7 +1391,7 @@ impl Checker
                 late.sort();
                 for e in late
                 {
-                    if self.ent_grace.remove(&e) { continue; }
+                    self.overdue_entities.push(e);
                     self.ent_doomed.remove(&e);
                     self.viol("C08", format!("pool entity {e} lost its last auto-despawn signal but the next garbage collection did not despawn it (its removal / despawn reactions are overdue)"));
                     self.viol("C07", format!("pool entity {e} lost its last auto-despawn signal but the next garbage collection did not despawn it"));
@@ -1387,7 +1400,9 @@ impl Checker
                     .filter(|(_, a)| a.doomed && !a.collected).map(|(i, a)| (i, a.sys)).collect();
                 for (a, s) in missed
                 {
-                    if self.arcs[a].grace { self.arcs[a].grace = false; continue; }
+                    // also residue if it is still there when the tree's flush returns (C11), and a reason why
+                    // commands reaching it still run it (C02: "zero times if the target is gone")
+                    self.overdue_reactors.push(s);
                     self.arcs[a].collected = true;
                     self.viol_sys("C07", Some(s), format!("reactor {s} lost its last trigger but the next garbage collection did not collect it"));
                 }
@@ -1640,7 +1655,11 @@ impl Checker
                 self.viol_sys("C02", Some(sys), format!("system {sys} ran (run {run}) without a scheduled command"));
             }
         }
-        if !self.alive(sys) { self.viol_sys("C18", Some(sys), format!("system {sys} ran although it has been despawned")); }
+        if !self.alive(sys)
+        {
+            self.viol_sys("C18", Some(sys), format!("system {sys} ran although it has been despawned"));
+            self.viol_sys("C02", Some(sys), format!("system {sys} ran although it is gone (a command runs its target zero times if the target is gone)"));
+        }
         let k = { let s = &mut self.systems[sys as usize]; s.runs += 1; s.trees_with_runs.insert(self.tree); s.runs };
         // C13: one persistent private state
         if local_n != k || captured_n.map(|c| c != k).unwrap_or(false)
@@ -1866,7 +1885,6 @@ impl Checker
             if self.ent_alive.get(e as usize).copied().unwrap_or(false)
             {
                 self.ent_doomed.insert(e);
-                if self.in_gc { self.ent_grace.insert(e); }
                 self.rep.classes.hit("C08:entity_doomed_by_payload_release");
             }
         }
